@@ -15,6 +15,10 @@ type GenCfg struct {
 	MinFlags int  // at least that many flags
 	Exotic   bool // exotic positionals ("", "a=b", non-ASCII)
 	NoGroup  bool // no option groups (pumped inputs: the ideal group semantics is subset-valued)
+	BareSubs bool // trees: sub commands declare no options and no arguments (such an application can be Run twice)
+	// aliasPool, when set, collects every command name of the tree being drawn: a name may be reused by a command that
+	// is not a sibling (names only have to be unique among the sub commands of one command)
+	aliasPool *[]string
 }
 
 func intn(t *rapid.T, n int, label string) int {
@@ -70,9 +74,9 @@ func GenDecls(t *rapid.T, cfg GenCfg) *Decls {
 		mk(optNamePool[4+i], false)
 	}
 	if chance(t, 1, 10, "nonasciiopt") {
-		// an option whose only names are not ASCII: "é" is ONE character but two bytes, the library's rule (byte length > 1)
-		// makes it the long option --é; the spec lexer cannot spell it, OPTIONS reaches it
-		names := rapid.SampledFrom([][]string{{"--é"}, {"--ñandú"}, {"--é", "--ünï"}}).Draw(t, "nonasciinames")
+		// an option whose only names are not ASCII (two letters or more: long options whether letters are counted in bytes
+		// or in characters); the spec lexer cannot spell them, OPTIONS reaches them
+		names := rapid.SampledFrom([][]string{{"--éa"}, {"--ñandú"}, {"--éa", "--ünï"}}).Draw(t, "nonasciinames")
 		d.Opts = append(d.Opts, OptDecl{Names: names, Bool: chance(t, 1, 2, "nonasciiflag"), OnlyViaOptions: true})
 	}
 	if cfg.Env {
@@ -296,7 +300,11 @@ func SampleItems(t *rapid.T, d *Decls, ast *Node, cfg GenCfg) []Item {
 
 // Spell turns items into tokens, choosing a documented spelling per occurrence and folding
 // adjacent short-spelled occurrences at random.
-func Spell(t *rapid.T, d *Decls, items []Item) []string {
+func Spell(t *rapid.T, d *Decls, items []Item) []string { return SpellX(t, d, items, false) }
+
+// SpellX is Spell; with foldEq the last member of a folded token may carry "=value" ("-ab=true", "-abo=v"): a token shape
+// the library reads but no property fixes the reading of (only used where the library is compared with itself).
+func SpellX(t *rapid.T, d *Decls, items []Item, foldEq bool) []string {
 	var out []string
 	for i := 0; i < len(items); i++ {
 		it := items[i]
@@ -318,7 +326,12 @@ func Spell(t *rapid.T, d *Decls, items []Item) []string {
 					}
 					tok += sn[1:]
 					if !d.Opts[items[j].Opt].Bool {
-						if chance(t, 1, 2, "attach") {
+						// a value starting with '-' cannot be written in the separate form, one starting with '=' not in the
+						// attached form (C10's precondition): the remaining forms stay interchangeable
+						dashV, eqV := strings.HasPrefix(items[j].Val, "-"), strings.HasPrefix(items[j].Val, "=")
+						if foldEq && chance(t, 1, 2, "foldeqv") {
+							out = append(out, tok+"="+items[j].Val)
+						} else if !eqV && (dashV || chance(t, 1, 2, "attach")) {
 							tok += items[j].Val
 							out = append(out, tok)
 						} else {
@@ -331,6 +344,9 @@ func Spell(t *rapid.T, d *Decls, items []Item) []string {
 					j++
 				}
 				if tok != "" {
+					if foldEq && len(tok) > 2 && chance(t, 1, 2, "foldeqtrue") {
+						tok += "=true"
+					}
 					out = append(out, tok)
 				}
 				i = j - 1
@@ -343,7 +359,14 @@ func Spell(t *rapid.T, d *Decls, items []Item) []string {
 			}
 			continue
 		}
-		switch k := intn(t, 3, "vform"); {
+		k := intn(t, 3, "vform")
+		if strings.HasPrefix(it.Val, "-") && (k == 0 || (long && k == 2)) {
+			k = 1 // not the separate form
+		}
+		if strings.HasPrefix(it.Val, "=") && !long && k == 2 {
+			k = 0 // not the attached form
+		}
+		switch {
 		case k == 0:
 			out = append(out, name, it.Val)
 		case k == 1:
